@@ -78,6 +78,9 @@ func signedPackage(r *core.Rand, tier, role string, signer int, gz bool) []model
 func signedPackageX(r *core.Rand, tier, role string, signer int, cext, dext string, payload int) ([]model.ArMember, []byte, []byte) {
 	d, _ := genDebControl(r, nil)
 	m := debModel{ControlText: d.sb.String(), ControlExt: cext, DataExt: dext, Binary: "2.0\n"}
+	if payload > 0 && r.Chance(1, 3) { // a control file well beyond 64 KiB (long Provides/Breaks lists do that); codec batch only
+		m.ControlText += "X-Long-Field: " + r.Str("abcdefghijklmnopqrstuvwxyz0123456789 ", r.Range(70000, 200000)) + "x\nX-After: " + r.Str("abcdef", 6) + "\n"
+	}
 	if r.Bool() { // deb(5) allows further lines after the format version; they are signed too
 		m.Binary = "2.0\nreserved for future use " + r.Str("abcdef", 6) + "\n"
 	}
@@ -411,6 +414,8 @@ func (p c16) RunBatch(t *core.T, b core.Batch) {
 			dataGz, _ := compress("gz", dataTar)
 			decoys := []model.ArMember{{Name: "control.tar", Data: altTar}, {Name: "control.tar.gz", Data: altGz}, {Name: "control.x", Data: altTar},
 				{Name: "data.tar", Data: dataTar}, {Name: "data.tar.gz", Data: dataGz},
+				// zero-length decoys (a second control.*/data.* member is one whatever its size)
+				{Name: "data.tar", Data: nil}, {Name: "data.tar.xz", Data: nil}, {Name: "control.tar", Data: nil}, {Name: "control.tar.zst", Data: nil},
 				// near-miss names: not control.*/data.* members, so the package stays valid - but they must never be exposed
 				{Name: "data-old.tar", Data: dataTar}, {Name: "database.tar.gz", Data: dataGz}, {Name: "datax.tar", Data: dataTar},
 				{Name: "control-old.tar", Data: altTar}, {Name: "controlx.tar.gz", Data: altGz}, {Name: "xcontrol.tar", Data: altTar}, {Name: "xdata.tar", Data: dataTar}}
